@@ -38,6 +38,10 @@ enum Op {
     Dec(u64),
     UpdPos(u64),
     Tick,
+    /// pb.set_message("m"): like tick() it reaches the estimator with an unchanged position
+    /// (BarState::set_message -> update_estimate_and_draw, src/state.rs); the model has no message,
+    /// the Coq term of this call is `Tick`
+    SetMsg,
     SetLen(u64),
     UnsetLen,
     ResetEta,
@@ -57,6 +61,7 @@ impl Op {
             Op::Dec(d) => format!("Dec {d}"),
             Op::UpdPos(d) => format!("UpdPos {d}"),
             Op::Tick => "Tick".into(),
+            Op::SetMsg => "SetMsg".into(),
             Op::SetLen(d) => format!("SetLen {d}"),
             Op::UnsetLen => "UnsetLen".into(),
             Op::ResetEta => "ResetEta".into(),
@@ -75,6 +80,7 @@ impl Op {
             Op::Dec(d) => format!("Dec {}", num(*d as u128)),
             Op::UpdPos(d) => format!("UpdPos {}", num(*d as u128)),
             Op::SetLen(d) => format!("SetLen {}", num(*d as u128)),
+            Op::SetMsg => "Tick".into(),
             o => o.coq(),
         }
     }
@@ -89,6 +95,7 @@ impl Op {
                 pb.update(move |st| st.set_pos(p))
             }
             Op::Tick => pb.tick(),
+            Op::SetMsg => pb.set_message("m"),
             Op::SetLen(l) => pb.set_length(*l),
             Op::UnsetLen => pb.unset_length(),
             Op::ResetEta => pb.reset_eta(),
@@ -256,7 +263,7 @@ impl Shadow {
                 self.pos = *p;
                 Some(self.record(now, t))
             }
-            Op::Tick => Some(self.record(now, t)),
+            Op::Tick | Op::SetMsg => Some(self.record(now, t)),
             Op::SetLen(l) => {
                 *len = Some(*l);
                 Some(self.record(now, t))
@@ -307,6 +314,7 @@ struct QRec {
     sh_sm: f64,       // shadow transcription: smoothed, double smoothed, and its own steps_per_second
     sh_dsm: f64,
     sh_rate: f64,
+    sh_reweight: f64, // shadow transcription: the weight 0.1^((t - last sample)/15 s) of this query
     stale: bool,      // shadow: at the last reset op prev_steps != position after the reset
     changed: bool,    // shadow: this op changed the estimator (accepted sample / restart) or finished the bar
 }
@@ -323,9 +331,11 @@ struct Run {
 fn observe(pb: &ProgressBar) -> Result<Obs, String> {
     let per_sec = catch(|| pb.per_sec())?;
     let el = catch(|| pb.elapsed())?;
-    let eta = catch(|| pb.eta()).ok();
-    let dur = catch(|| pb.duration()).ok();
-    Ok(Obs { per_sec, eta, dur, el })
+    // a panic inside eta()/duration() (Duration::new / from_secs_f64 overflow) poisons the bar's
+    // mutex: report it as such (class `eta-panic`) instead of letting later calls fail
+    let eta = catch(|| pb.eta()).map_err(|e| format!("eta() panicked: {e} (per_sec={per_sec})"))?;
+    let dur = catch(|| pb.duration()).map_err(|e| format!("duration() panicked: {e} (per_sec={per_sec}, eta={eta:?})"))?;
+    Ok(Obs { per_sec, eta: Some(eta), dur: Some(dur), el })
 }
 
 fn drive(len0: Option<u64>, t0: u64, ops: &[Op]) -> Run {
@@ -387,23 +397,33 @@ fn drive(len0: Option<u64>, t0: u64, ops: &[Op]) -> Run {
                     sh_sm: sh.sm,
                     sh_dsm: sh.dsm,
                     sh_rate: sh.rate(now),
+                    sh_reweight: weight_of(secs_of(now.saturating_sub(sh.prev_time))),
                     stale,
                     changed,
                 }),
                 Err(e) => {
-                    run.panic = Some(format!("query after op #{i} panicked: {e}"));
+                    run.panic = Some(if e.starts_with("eta()") || e.starts_with("duration()") {
+                        format!("{e} after op #{i} {}", o.coq())
+                    } else {
+                        format!("query after op #{i} panicked: {e}")
+                    });
                     break;
                 }
             }
         }
     }
     // cross-check the shadow's view of position / length with the bar (cheap sanity)
-    if run.panic.is_none() && (pb.position() != sh.pos || pb.length() != len) {
-        run.panic = Some(format!(
-            "harness shadow out of sync: bar pos={} len={:?}, shadow pos={} len={:?}",
-            pb.position(), pb.length(), sh.pos, len
-        ));
+    if run.panic.is_none() {
+        match catch(|| (pb.position(), pb.length())) {
+            Ok((p, l)) if p == sh.pos && l == len => {}
+            Ok((p, l)) => {
+                run.panic = Some(format!("harness shadow out of sync: bar pos={p} len={l:?}, shadow pos={} len={len:?}", sh.pos))
+            }
+            Err(e) => run.panic = Some(format!("position()/length() panicked: {e}")),
+        }
     }
+    // the bar may be poisoned by a panic under its mutex: dropping it must not take the harness down
+    let _ = catch(move || drop(pb));
     run.tbl = tbl.order;
     run
 }
@@ -491,7 +511,10 @@ fn steady_discount(a: f64, w: f64) -> f64 {
 /// Direct statement of C09 on the implementation's outputs.
 fn oracle(s: &mut Session, st: &mut Stats, desc: &str, ops: &[Op], run: &Run, steady: Option<f64>) {
     if let Some(p) = &run.panic {
-        s.fail("panic", p.clone(), desc.to_string());
+        // eta()/duration() must return for every rate (theorem C09_f64_eta_duration_total: the
+        // conversion secs_to_duration / Duration::new is total on every binary64 datum)
+        let class = if p.starts_with("eta()") || p.starts_with("duration()") { "eta-panic" } else { "panic" };
+        s.fail(class, p.clone(), desc.to_string());
         return;
     }
     // stall windows: maximal runs of readings during which the estimator received no sample and
@@ -634,19 +657,28 @@ fn oracle(s: &mut Session, st: &mut Stats, desc: &str, ops: &[Op], run: &Run, st
         let seen = q.last_sample > q.est_start;
         let stall_ns = q.t - q.last_sample;
         if seen && ob.per_sec == 0.0 {
-            if stall_ns >= STALL_SUBNORMAL_NS {
+            // CAUSE of D32, decided per reading on the harness's own binary64 transcription: the
+            // weight of this query has left the normal range (subnormal or zero: every product
+            // average * weight below 2^-1075 is flushed to 0, e.g. any average <= 0.5 at the
+            // smallest subnormal weight) AND the transcription's steps_per_second is 0 as well
+            let weight_underflowed = q.sh_reweight < f64::MIN_POSITIVE;
+            if weight_underflowed && q.sh_rate == 0.0 {
                 st.underflow_seen += 1;
+                if stall_ns < STALL_SUBNORMAL_NS {
+                    // the real-number threshold theorem says the exact weight is still normal here
+                    s.count("weight-underflow:subnormal-before-4615s");
+                }
                 fail_known(
                     s,
                     &mut st.d32_reported,
                     "rate-underflow-after-long-stall",
-                    format!("per_sec=0 and eta={eta:?} at op #{}, {} s after the last accepted sample, although progress has been seen (0.1^(x/15) is below 2^-1022 from 4615 s, rounds to 0 from 4855 s)", q.op_index, stall_ns as f64 / 1e9),
+                    format!("per_sec=0 and eta={eta:?} at op #{}, {} s after the last accepted sample, although progress has been seen: the weight 0.1^(x/15) of this query is {:e} (subnormal or zero; below 2^-1022 from 4615 s, rounds to 0 from 4855 s) and smoothed*weight, double_smoothed*weight are flushed to 0 (smoothed={}, double_smoothed={})", q.op_index, stall_ns as f64 / 1e9, q.sh_reweight, q.sh_sm, q.sh_dsm),
                     desc,
                 );
             } else {
                 s.fail(
                     "rate-zero-although-progress-seen",
-                    format!("per_sec=0 at op #{} only {} s after the last accepted sample", q.op_index, stall_ns as f64 / 1e9),
+                    format!("per_sec=0 at op #{} {} s after the last accepted sample; weight of the query {:e}, transcription's rate {}", q.op_index, stall_ns as f64 / 1e9, q.sh_reweight, q.sh_rate),
                     desc.to_string(),
                 );
             }
@@ -792,6 +824,27 @@ fn emit(s: &mut Session, st: &mut Stats, kind: &str, len0: Option<u64>, t0: u64,
             s.count(&format!("pos:1e{}", if *p == 0 { 0 } else { (*p as f64).log10() as u32 }));
         }
     }
+    if kind.starts_with("steady") {
+        // cadence of the stream: time between consecutive position-changing calls
+        let mut since_update = 0u64;
+        for o in ops {
+            match o {
+                Op::Adv(g) => since_update = since_update.saturating_add(*g),
+                Op::SetPos(_) | Op::Inc(_) | Op::UpdPos(_) => {
+                    let b = match since_update {
+                        0..=999_999 => "<1ms",
+                        1_000_000..=999_999_999 => "1ms..1s",
+                        1_000_000_000..=3_599_999_999_999 => "1s..1h",
+                        _ => ">1h",
+                    };
+                    s.count(&format!("steady-cadence:{b}"));
+                    since_update = 0;
+                }
+                Op::Tick | Op::SetMsg => s.count("steady-interleaved:tick/set_message"),
+                _ => {}
+            }
+        }
+    }
     s.count_n("updates:recorded", run.recorded);
     s.count_n("updates:throttled_by_limiter", run.throttled);
     let nq = run.q.iter().filter(|q| q.explicit).count();
@@ -915,7 +968,7 @@ fn gen_mixed(r: &mut Rng) -> (Option<u64>, Vec<Op>) {
                 pos = r.below(pos.max(1)); // backwards seek
                 if r.chance(1, 2) { Op::SetPos(pos) } else { Op::UpdPos(pos) }
             }
-            15 => Op::Tick,
+            15 => if r.chance(1, 2) { Op::Tick } else { Op::SetMsg },
             16 => Op::SetLen(if r.chance(1, 2) { pos.saturating_add(r.range(0, scale.saturating_mul(10).min(1 << 62))) } else { magnitude(r) }),
             17 => if r.chance(1, 3) { Op::UnsetLen } else { Op::Tick },
             18 => Op::ResetEta,
@@ -1001,6 +1054,64 @@ fn gen_steady(r: &mut Rng) -> (Option<u64>, Vec<Op>, f64) {
         ops.push(Op::Query);
     }
     let len = if r.chance(1, 4) { None } else { Some(pos.saturating_add(r.range(0, k.saturating_mul(1000).min(1 << 62)))) };
+    (len, ops, rate)
+}
+
+/// steady progress at SUB-MILLISECOND cadence (the position limiter throttles most set_position /
+/// inc calls; the throttled positions are folded into the next accepted segment) with interleaved
+/// tick() / set_message() calls that reach the estimator with an unchanged position: at the instant
+/// of the update they follow, or - after an update(..), which is always recorded - in the middle of
+/// a gap (the estimator ignores a call that brings no new position; theorem C09_bar_steady_line)
+fn gen_steady_fast(r: &mut Rng) -> (Option<u64>, Vec<Op>, f64) {
+    let unit = r.range(20_000, 900_000);
+    let k = r.range(1, 50);
+    let rate = k as f64 / (unit as f64 / 1e9);
+    let n = r.range(5, 60);
+    let mut ops = vec![];
+    let mut pos = 0u64;
+    let mut last_recorded = false;
+    for _ in 0..n {
+        let m = r.range(1, 4);
+        let gap = m * unit;
+        if last_recorded && r.chance(1, 3) {
+            let g1 = r.range(1, gap - 1);
+            ops.push(Op::Adv(g1));
+            ops.push(if r.chance(1, 2) { Op::Tick } else { Op::SetMsg });
+            if r.chance(1, 3) {
+                ops.push(Op::Query);
+            }
+            ops.push(Op::Adv(gap - g1));
+        } else if r.chance(1, 6) {
+            let g1 = r.range(1, gap - 1);
+            ops.push(Op::Adv(g1));
+            ops.push(Op::Query);
+            ops.push(Op::Adv(gap - g1));
+        } else {
+            ops.push(Op::Adv(gap));
+        }
+        pos += m * k;
+        let o = match r.below(4) {
+            0 => Op::SetPos(pos),
+            1 => Op::Inc(m * k),
+            _ => Op::UpdPos(pos),
+        };
+        last_recorded = matches!(o, Op::UpdPos(_));
+        ops.push(o);
+        if r.chance(1, 3) {
+            // at the very instant of the update: on the line whatever the limiter decided
+            ops.push(if r.chance(1, 2) { Op::Tick } else { Op::SetMsg });
+            last_recorded = true;
+        }
+        if r.chance(1, 5) {
+            ops.push(Op::Query);
+        }
+    }
+    ops.push(Op::Query);
+    if r.chance(1, 2) {
+        ops.push(Op::Adv(gap(r).min(600 * S)));
+        ops.push(Op::Query);
+    }
+    let len = if r.chance(1, 4) { None } else { Some(pos + r.range(0, 100_000)) };
     (len, ops, rate)
 }
 
@@ -1191,7 +1302,7 @@ fn main() {
         "est_case",
         "est_check",
     );
-    s.rule = "histories of set_position/inc/dec/update(set_pos)/tick/set_length/unset_length/reset_eta/reset_elapsed/reset/finish/abandon and clock advances (0, 1 ns, sub-ms, 1 ms .. 30 days) on a hidden bar under the mock clock, observed by per_sec/eta/duration/elapsed; four generators: mixed (all ops, positions 1e0..1e19), steady (points on a line, irregular multiples of a unit gap >= 1 ms, restarts allowed, queries at, between and after the samples), stall (two phases then queries at increasing instants), forget (prefix; reset*/backwards seek; suffix vs the suffix on a fresh bar); non-trivial = at least one recorded sample and one query; distinct = distinct case text".into();
+    s.rule = "histories of set_position/inc/dec/update(set_pos)/tick/set_length/unset_length/reset_eta/reset_elapsed/reset/finish/abandon and clock advances (0, 1 ns, sub-ms, 1 ms .. 30 days) on a hidden bar under the mock clock, observed by per_sec/eta/duration/elapsed; four generators: mixed (all ops, positions 1e0..1e19), steady (points on a line, irregular multiples of a unit gap >= 1 ms, restarts allowed, queries at, between and after the samples), steady-fast (the same at sub-millisecond cadence, where the position limiter throttles, with interleaved tick()/set_message() calls), stall (two phases then queries at increasing instants), forget (prefix; reset*/backwards seek; suffix vs the suffix on a fresh bar); non-trivial = at least one recorded sample and one query; distinct = distinct case text".into();
     s.shard_size = 100;
     let mut st = Stats {
         max_steady_dev: 0.0,
@@ -1348,6 +1459,11 @@ fn main() {
         let (l, ops, rate) = gen_steady(&mut r);
         let t0 = t0_of(&mut r);
         emit(&mut s, &mut st, "steady", l, t0, &ops, fl(&mut k), Some(rate));
+    }
+    for _ in 0..150 * mult {
+        let (l, ops, rate) = gen_steady_fast(&mut r);
+        let t0 = t0_of(&mut r);
+        emit(&mut s, &mut st, "steady-fast", l, t0, &ops, fl(&mut k), Some(rate));
     }
     for _ in 0..200 * mult {
         let (l, ops) = gen_stall(&mut r);
